@@ -47,10 +47,14 @@ func c23Run(r *simkit.Run) {
 		o.start = lo + base.Height(r.Choose(8))
 		o.end = o.start + base.Height(1+r.Choose(6))
 
+		// the fact hash covers (node, start, end) only: keep the triples distinct
 		fact := isaac.NewSuffrageExpelFact(common.Local(o.node).Address(), o.start, o.end, "verif")
-		if _, dup := byFact[fact.Hash().String()]; dup {
-			// same (node,start,end) gives the same fact: keep the ranges distinct
-			o.end += base.Height(7 + i)
+		for {
+			if _, dup := byFact[fact.Hash().String()]; !dup {
+				break
+			}
+
+			o.end++
 			fact = isaac.NewSuffrageExpelFact(common.Local(o.node).Address(), o.start, o.end, "verif")
 		}
 
